@@ -450,8 +450,32 @@ def run(prog, rep, tier):
     for (rid_, key_, what_, det_) in _sub.violations:
         if rid_ == "R5.4":
             rep.violation(R87, key_.split("|", 1)[1], what_)
+        elif rid_ == "R5.17" and "FixedStruct" in key_ or rid_ == "R5.17" and "siblings" in key_:
+            rep.violation(R87, key_.split("|", 1)[1] + "|R5.17", what_)
     for s_ in _sub.rules.get("R5.4", {}).get("samples", []):
         rep.examined(R87, str(s_)[:70], sample=s_)
+    for k_ in sorted(_sub.rules.get("R5.17", {}).get("keys", ())):
+        rep.examined(R87, "R5.17|" + k_, sample={"rule": "R5.17 (record files are sized by their decoded length in every container)", "instance": k_})
+
+    # ------------------------------------------------------------ R8.19 a printed record has left the printer's private buffer (lift of C01 R1.7)
+    # "Each non-null record is printed exactly once": the print_fixedstruct* variants batch bytes in
+    # PrinterLogMessage's buffer; a variant that returns Ok with the record still in the buffer prints it
+    # late (after other sources' prefixes) and never prints the file's last record.
+    import printflush as _pf8
+    R819 = rep.rule("R8.19", "every print_fixedstruct variant returns Ok only with its buffer written out (from C01 R1.7)")
+    _sub17 = _Rep("C01", "quick", dict(rep.meta))
+    _r17 = _sub17.rule("R1.7", "lift")
+    _pf8.check(prog, _sub17, _r17, floor=24)
+    n819 = 0
+    for k_ in sorted(_sub17.rules["R1.7"]["keys"]):
+        if "print_fixedstruct" in k_:
+            n819 += 1
+            rep.examined(R819, k_, sample={"printer": k_})
+    for (rid_, key_, what_, det_) in _sub17.violations:
+        if "print_fixedstruct" in key_:
+            rep.violation(R819, key_.split("|", 1)[1], what_)
+    if n819 < 4:
+        raise CheckerError("R8.19: only %d print_fixedstruct bodies among the printers" % n819)
 
     # ------------------------------------------------------------ R8.6 the worker sends records until the reader is done
     R86 = rep.rule("R8.6", "the accounting worker's loop ends only when the reader reports Done or an error")
